@@ -180,7 +180,12 @@ class FakeTransport(asyncio.Transport):
     def feed(self, data):
         """Deliver bytes from the peer (ignored once the client closed the transport)."""
         if not self._closing:
-            self.proto.data_received(bytes(data))
+            try:
+                self.proto.data_received(bytes(data))
+            except Exception as exc:  # noqa: BLE001 - what asyncio's selector transport does: log, force-close, connection_lost(exc)
+                self.net.log(("fatal", self.cid, type(exc).__name__))
+                self._closing = True
+                self.proto.connection_lost(exc)
             return True
         return False
 
